@@ -21,7 +21,7 @@ RULE = ("cases = (start position set exactly with G92 or left unknown, "
         "start angle, sweep or full turn, dz), arc_radius from (chord, radius "
         "factor, sign), helix/spiral from (radii, angles, turns 1..8, thorough "
         "to 64 and a thin class to 600, dz), thread from (target, pitch), "
-        "spline from 2..6 control points, polyline from 1..8 points; targets as "
+        "spline from 2..6 control points (also closed on the start or revisiting an earlier control point), polyline from 1..8 points; targets as "
         "2- or 3-tuples; optionally issued after another traced path); "
         "non-trivial = start position not at the origin and >= 8 vertices "
         "(polyline: >= 2 points); distinct by SHA-1")
@@ -34,6 +34,8 @@ ASSUMPTIONS = [
     "a full turn (requests in between are numerically ambiguous)",
     "splines: each control point within one resolution of the polyline, "
     "matched in order; polylines: vertices are the given points",
+    "multi-turn requests are traced with at least 8 resolutions per turn (a "
+    "coarser polyline cannot show how many turns were made)",
     "positions are kept within 1e4 of the origin (the library's own 1e-10 "
     "relative radius test makes requests far away unbuildable)",
 ]
@@ -64,6 +66,16 @@ def shape_strategy(max_turns):
         st.fixed_dictionaries({"shape": st.just("spline"),
                                "pts": st.lists(st.tuples(nz, off, dz), min_size=2, max_size=6),
                                "zgiven": st.booleans()}),
+        # splines (and polylines) that revisit a control point or close on the start
+        st.fixed_dictionaries({"shape": st.sampled_from(["spline", "spline", "polyline"]),
+                               "pts": st.lists(st.tuples(nz, off, dz), min_size=2, max_size=5),
+                               "zgiven": st.booleans(),
+                               "closed": st.booleans(),
+                               "revisit": st.one_of(st.none(), st.integers(0, 4))}),
+        # constant-radius helices with several turns
+        st.tuples(rad, ang, sweep, st.integers(2, max(2, max_turns)), dz, st.booleans()).map(
+            lambda t: {"shape": "helix", "r": t[0], "a0": t[1], "r1": t[0], "sweep": t[2],
+                       "turns": t[3], "dz": t[4], "zgiven": t[5], "full": False}),
         st.fixed_dictionaries({"shape": st.just("helix"), "r": rad, "a0": ang, "r1": rad,
                                "sweep": sweep, "turns": turns, "dz": dz,
                                "zgiven": st.booleans(), "full": st.sampled_from([False, False, True, "nominal"])}),
@@ -100,6 +112,12 @@ def check(case, cl=None):
     d = case["desc"]
     if d["shape"] in ("helix", "spiral") and d["turns"] > 8:
         ratio = min(max(ratio, 30 * d["turns"]), 12000)
+    # a polyline can only show the number of turns if it has several vertices
+    # per turn: at least 8 per turn for multi-turn requests
+    if d["shape"] in ("helix", "spiral"):
+        ratio = max(ratio, 8.0 * d["turns"])
+    if d["shape"] == "thread":
+        ratio = max(ratio, 8.0 * max(1, int(abs(d["dz"]) / d["pitch"])))
     r = geom.run_shape(case["start"], case["mode"], case["dir"], case["dp"], d,
                        ratio=ratio, pre=case.get("pre"))
     info, verts, res, s = r["info"], r["verts"], r["res"], r["s"]
@@ -129,6 +147,10 @@ def check(case, cl=None):
         cl.add("after_traced_path")
     if d.get("full"):
         cl.add("full_turn_request")
+    if d.get("closed") or d.get("revisit") is not None:
+        cl.add("revisits_control_point")
+    if d["shape"] == "helix" and d["r"] == d["r1"] and d["turns"] > 1:
+        cl.add("constant_radius_multi_turn")
     if kind in ("arc", "circle", "helix", "arc_radius"):
         if kind == "arc_radius":
             c, a0, S = geom.arc_radius_geometry(info["start"], tgt, info["R"],
